@@ -74,4 +74,4 @@ LEVEL_TEXT = ('Bounded symbolic verification: the real GMGPolar::setup() and the
               'separately built operators of the other strategy, and that the result is independent of the scratch contents. Hierarchy sizes bounded.')
 LEVEL_NOTE = 'exact arithmetic; coefficient values from the small-rational libm mode; 2 levels (3 in thorough for the fixed point); object state built directly'
 TECHNIQUE = 'symbolic execution of LLVM IR (llsym) of setup() + private cycle functions + SMT (cvc5 QF_LRA, one query per obligation)'
-DESIGN_REF = 'DESIGN.md section 6/C10'
+DESIGN_REF = 'DESIGN.md section 0 (status as built: 0.2, 0.5, 0.6) and section 6/C10 (design)'
